@@ -5353,6 +5353,7 @@ size_t ZSTD_compressEnd_public(ZSTD_CCtx* cctx,
             (unsigned)cctx->consumedSrcSize);
     }
     ZSTD_CCtx_trace(cctx, endResult);
+    cctx->pledgedSrcSizePlusOne = 0;   /* a source size is pledged for one frame only : do not leak it into the next (streaming) frame */
     return cSize + endResult;
 }
 
